@@ -89,6 +89,16 @@ fn check_hist(h: &Hist) -> CaseResult {
     let lib = lib_new(&key)?;
     let snapshot = lib.clone();
     for (i, (dec, b)) in h.ops.iter().enumerate() {
+        if b.len() != 16 {
+            // a call the library must refuse (wrong block length): it may not change what the object does afterwards
+            match outcome(|| if *dec { lib.decrypt(b) } else { lib.encrypt(b) }) {
+                Outcome::Err(_) => {}
+                Outcome::Ok(v) => return fail(format!("entry=Sm4Cipher::{} input={}-byte-block outcome=accepted", if *dec { "decrypt" } else { "encrypt" }, if b.len() < 16 { "short" } else { "long" }), format!("step {}: a block of {} bytes gave {}", i, b.len(), hex::encode(v))),
+                Outcome::Panic(p) => return fail(format!("entry=Sm4Cipher::{} input=wrong-length-block outcome=panic", if *dec { "decrypt" } else { "encrypt" }), format!("step {}: a block of {} bytes: {}", i, b.len(), p)),
+            }
+            ensure!(lib == snapshot, "entry=Sm4Cipher history outcome=object-mutated", "cipher object differs from its clone after the refused call of step {}", i);
+            continue;
+        }
         let blk = arr16(b);
         let got = lib_block(&lib, *dec, &blk)?;
         let want = if *dec { r.decrypt(&blk) } else { r.encrypt(&blk) };
@@ -298,6 +308,17 @@ pub fn run(ctx: &Ctx) {
         ctx.tier.pick(200_000, 4_000_000),
         || (any16(), any16()).prop_map(|(key, block)| KB { key, block }),
         check_kb,
+    );
+
+    ctx.generated(
+        "call_histories_with_refused_calls",
+        "vec((enc|dec, block), 1..24) on one cipher object in which about one call in four has a block of the wrong length (0, 1, 15, 17, 31, 32 bytes) and must be refused: every later call is compared with a fresh object, the reference and the clone",
+        ctx.tier.pick(4_000, 100_000),
+        || {
+            let blk = prop_oneof![3 => any16(), 1 => (prop::sample::select(vec![0usize, 1, 15, 17, 31, 32]), any::<u64>()).prop_map(|(l, s)| Hex(expand_bytes(s, l)))];
+            (any16(), prop::collection::vec((any::<bool>(), blk), 1..24)).prop_map(|(key, ops)| Hist { key, ops })
+        },
+        check_hist,
     );
 
     ctx.generated(
